@@ -3,7 +3,7 @@
 -/
 import Kevo.Model.ConcTable
 import Kevo.Proofs.ConcCore
-namespace Kevo.Conc
+namespace Kevo.LConc
 
 theorem mem_rowsOf {tbl : List Site} {x : Var} {r : Site} (h : r ∈ tbl) (hx : r.field = x) : r ∈ rowsOf tbl x := by
   unfold rowsOf
@@ -178,4 +178,4 @@ theorem race_of_disjoint_writers (tbl : List Site) (f : Var) (m1 m2 : Lock) (hne
     · simp [next, twoWriters, apply, St.init]
     · exact ⟨true, false, true, false, rfl, rfl, Or.inl rfl, by simp⟩
 
-end Kevo.Conc
+end Kevo.LConc
